@@ -73,7 +73,7 @@ def plan(prop, tier):
         if monitor == "c09-length":
             sc = qscale
         else:
-            sc = qscale if q else min(0.19, qscale * 8)
+            sc = qscale if q else min(0.19, qscale * 4)
         steps.append(S(monitor, config, profile="dev", tool=tool, shards=shards if q else max(shards, 16), scale=sc,
                        params=params, timeout=4 * 3600, miri_flags=flags))
 
@@ -117,14 +117,14 @@ def plan(prop, tier):
             miri("c02-whole", "naive", 0.0005, 0.005, shards=8, tool="miri-s390x")
     elif prop == "C03":
         cfgs = ["default", "naive", "lowmem-a"] if q else ["default", "naive", "lowmem-a", "lowmem-b", "optdef", "static-avx2", "unsafe"]
-        many("c03-history", cfgs, shards=16, scale=2.0, main=cfgs)
+        many("c03-history", cfgs, shards=16, scale=2.0 if q else 1.0, main=cfgs if q else ("default", "naive", "lowmem-a"), minor_shards=16)
         many("c03-history", ["default", "naive", "lowmem-a"], profile="dbg", shards=8, scale=0.5, main=("default", "naive", "lowmem-a"))
         miri("c03-history", "default-avx2", 0.0008, 0.04)
         # one piece longer than u32::MAX must behave like the same bytes in smaller pieces
         steps.append(S("c11-huge-slice", "default", shards=1 if q else 2, params={"property": "C03"}, timeout=2 * 3600))
         if not q:
-            miri("c03-history", "lowmem-a", 0.01, 0.05)
-            miri("c03-history", "naive", 0.01, 0.05, tool="miri-i686")
+            miri("c03-history", "lowmem-a", 0.002, 0.05)
+            miri("c03-history", "naive", 0.002, 0.05, tool="miri-i686")
     elif prop == "C04":
         cfgs = ["default", "naive", "embedded", "lowmem-a", "lowmem-b", "lowmem-c", "hexsimd-parse", "hexsimd-conv", "unsafe", "strict"]
         if not q:
@@ -271,10 +271,10 @@ def plan(prop, tier):
         # the same program under Miri with many scheduler seeds (data races on a replaced dispatch
         # cache are reports) and under ThreadSanitizer with real threads
         steps.append(S("c07-firstcall", "default-avx2", profile="dev", tool="miri", shards=8 if q else 16, timeout=4 * 3600,
-                       miri_flags="-Zmiri-many-seeds=0..%d" % (2 if q else 64), params={"fail_exit": 1, "threads": 4}))
+                       miri_flags="-Zmiri-many-seeds=0..%d" % (2 if q else 16), params={"fail_exit": 1, "threads": 4}))
         if not q:
             steps.append(S("c07-firstcall", "default", profile="dev", tool="miri", shards=16, timeout=4 * 3600,
-                           miri_flags="-Zmiri-many-seeds=0..64", params={"fail_exit": 1, "threads": 3}))
+                           miri_flags="-Zmiri-many-seeds=0..16", params={"fail_exit": 1, "threads": 3}))
         steps.append(S("c07-firstcall", "default", tool="tsan", shards=40 if q else 1000, timeout=1200))
         for c in (["default-sse3"] if q else ["default-sse3", "default-ssse3", "default-sse41"]):
             steps.append(S("c07-firstcall", c, profile="dev", tool="miri", shards=4 if q else 16, timeout=4 * 3600,
